@@ -107,16 +107,81 @@ def check(prog: Program, tier: str) -> Result:
             "BARE name (branch facts, comprehension filters, set differences, dict-keyed facts). Sites whose subject is "
             "statically a use (ast.Attribute) or whose template pins the name to `_` are exempt. (R8.3) the producer "
             "_used_names_in_file records every attribute name unconditionally and format_files unions over all other "
-            "namespaces. Not decided: completeness of the name collection for exotic access forms."),
+            "namespaces. (R8.4) the magic methods (__init__, __str__, ...) of a class are used whenever the class is: in "
+            "delete_unused_functions_and_classes the map magic method -> class covers ALL classes and a magic method of a "
+            "preserved class is never deleted. Not decided: completeness of the name collection for exotic access forms."),
         rule_text="instances = calls carrying `preserve`, definition-affecting sites of the preserve consumers, clauses of the producer; non-trivial = sites that can delete or rename a definition",
     )
     res.trusted_base = ["CPython ast", "sa/pathcond.py", "sa/preserve.py site enumeration"]
     plumbing(prog, res, "R8.1", ("preserve",))
     stats = site_obligations(prog, res, "R8.2", need_bare=True)
     _producer(prog, res)
-    res.floors.update({"R8.1": 10, "R8.2": 8, "R8.3": 3})
+    _magic_methods(prog, res)
+    res.floors.update({"R8.1": 10, "R8.2": 8, "R8.3": 3, "R8.4": 1})
     res.analysed.update(stats)
     return res
+
+
+def _magic_methods(prog: Program, res: Result) -> None:
+    """R8.4: nobody calls __init__ / __str__ / __eq__ by name; they are used through the class.  A class whose name is
+    preserved is used from another file, so its magic methods must survive with it.  Decided on
+    delete_unused_functions_and_classes: (a) the loop that maps magic methods to their class iterates all classes, not
+    a collection filtered by `not in preserve`; (b) the deletion of a function that has such a class is reached only
+    when that class's name is not in preserve."""
+    fn = prog.funcs.get(("fixes", "delete_unused_functions_and_classes"))
+    if fn is None:
+        raise AnalysisError("anchor fixes.delete_unused_functions_and_classes not found")
+    loops = [l for l in walk_own(fn.node) if isinstance(l, ast.For) and any("is_magic_method" in norm(x) for x in ast.walk(l))]
+    if not loops:
+        res.undecided("R8.4", fn.loc(), fn.fq, "magic methods of classes", "no loop using parsing.is_magic_method found")
+        return
+    loop = loops[0]
+    it = loop.iter
+    filtered = None
+    if isinstance(it, ast.Name):
+        # is the collection filled only under `X.name not in preserve`?
+        for c in walk_own(fn.node):
+            if isinstance(c, ast.Call) and isinstance(c.func, ast.Attribute) and c.func.attr in ("append", "add") and norm(c.func.value) == it.id:
+                a = parent(c)
+                while a is not None and a is not fn.node:
+                    if isinstance(a, ast.If) and "not in preserve" in norm(a.test):
+                        filtered = norm(a.test)
+                    a = parent(a)
+        for _st, v in assignments(fn, it.id):
+            if v is not None and "not in preserve" in norm(v):
+                filtered = norm(v)
+    all_classes = filtered is None
+    res.decide(all_classes, "R8.4", fn.loc(loop), fn.fq, f"classes whose magic methods are attributed to them: {short(it, 50)}",
+               "all classes of the module" if all_classes else
+               f"only classes with `{filtered}`: the magic methods of a PRESERVED class belong to no class, count as unused functions and are deleted")
+    # (b) guard at the deletion
+    pa = PathAnalysis(prog, fn)
+    ys = [y for y in walk_own(fn.node) if isinstance(y, ast.Yield) and isinstance(y.value, ast.Tuple) and len(y.value.elts) >= 2
+          and isinstance(y.value.elts[1], ast.Constant) and y.value.elts[1].value is None]
+    lookup_vars = set()
+    for n in walk_own(fn.node):
+        if isinstance(n, ast.NamedExpr) and isinstance(n.target, ast.Name) and ".get(" in norm(n.value):
+            lookup_vars.add(n.target.id)
+        if isinstance(n, ast.Assign) and isinstance(n.targets[0], ast.Name) and ".get(" in norm(n.value) and "constructor" in norm(n.value):
+            lookup_vars.add(n.targets[0].id)
+    for y in ys:
+        loop_y = parent(y)
+        while loop_y is not None and not isinstance(loop_y, ast.For):
+            loop_y = parent(loop_y)
+        if loop_y is None or not any(isinstance(x, ast.Name) and x.id in lookup_vars for x in ast.walk(loop_y)):
+            continue
+        ok = False
+        for v in lookup_vars:
+            # a statement `if <v>.name in preserve: continue` (or the negative nesting) on the way to the yield
+            for i in ast.walk(loop_y):
+                if isinstance(i, ast.If) and norm(i.test) == f"{v}.name in preserve" and i.body and isinstance(i.body[-1], (ast.Continue, ast.Return)):
+                    ok = True
+                if isinstance(i, ast.If) and norm(i.test) == f"{v}.name not in preserve" and y in list(ast.walk(i)):
+                    ok = True
+        res.decide(ok, "R8.4", fn.loc(y), fn.fq, f"deletion of a function that is the magic method of a class: {short(y, 40)}",
+                   "skipped when the class is preserved" if ok else
+                   "a magic method is deleted when its class has no use IN THIS FILE, although the class is preserved because another file uses it: "
+                   "the client's Greeter() loses __init__ / __str__")
 
 
 def _producer(prog: Program, res: Result) -> None:
@@ -148,6 +213,28 @@ def _producer(prog: Program, res: Result) -> None:
     ret = [r for r in walk_own(fn.node) if isinstance(r, ast.Return)]
     walked = any(isinstance(n, ast.Call) and prog.dotted(n.func) == "core.walk" and "ast.Attribute" in norm(n) and "ast.Name" in norm(n) for n in walk_own(fn.node))
     res.decide(walked, "R8.3", fn.loc(), fn.fq, "walks names and attributes", "all Name and Attribute nodes are visited" if walked else "the walk no longer covers ast.Name and ast.Attribute")
+    # from-imports: the name to keep in the OTHER file is alias.name, whatever the preserved file calls it, used or not
+    orig = False
+    for n in walk_own(fn.node):
+        if isinstance(n, ast.Call) and isinstance(n.func, ast.Attribute) and n.func.attr in ("append", "extend", "add", "update") and n.args:
+            arg = n.args[0]
+            txt = norm(arg)
+            if ".name" in txt and "asname" not in txt.replace(".asname is None", ""):
+                # alias.name recorded; the enclosing loops must range over from-imports / aliases without a use test
+                conds = []
+                a = parent(n)
+                while a is not None and a is not fn.node:
+                    if isinstance(a, ast.If):
+                        conds.append(norm(a.test))
+                    a = parent(a)
+                src = " ".join(norm(l.iter) for l in walk_own(fn.node) if isinstance(l, ast.For) and n in list(ast.walk(l)))
+                src += " " + " ".join(norm(g.iter) for g in ast.walk(arg) if isinstance(g, ast.comprehension))
+                if ("ImportFrom" in src or ".names" in src) and not any(" in " in c and "imported" in c for c in conds):
+                    orig = True
+    res.decide(orig, "R8.3", fn.loc(), fn.fq, "names taken by from-import",
+               "the original name (alias.name) of every from-import alias of a preserved file is recorded" if orig else
+               "only names that the preserved file USES, under the name it BINDS, are recorded: `from lib import helper as h` preserves `h` instead of `helper`, "
+               "and an import that is only re-exported preserves nothing - the import in the preserved file then fails")
     ff = prog.func("main", "format_files")
     comp = [n for n in walk_own(ff.node) if isinstance(n, ast.DictComp) and "used_names" in norm(n)]
     ok = False
@@ -162,6 +249,14 @@ def _producer(prog: Program, res: Result) -> None:
 from ..selftest import Variant  # noqa: E402
 
 VARIANTS = [
+    Variant("from-import-aliases-not-recorded", "FIRE", "main",
+            "    for node in core.walk(ast_root, ast.ImportFrom):\n        # What is imported from another file must keep its name over there,\n        # whatever it is called here and whether or not it is used here.\n        names.extend(alias.name for alias in node.names)\n", "", "R8.3"),
+    Variant("from-import-aliases-recorded-by-bound-name", "FIRE", "main",
+            "        names.extend(alias.name for alias in node.names)\n", "        names.extend(alias.asname or alias.name for alias in node.names)\n", "R8.3"),
+    Variant("magic-methods-of-preserved-classes-unattributed", "FIRE", "fixes",
+            "    constructors = collections.defaultdict(set)\n    for node in core.walk(root, ast.ClassDef):\n", "    constructors = collections.defaultdict(set)\n    for node in classdefs:\n", "R8.4"),
+    Variant("magic-method-of-preserved-class-deleted", "FIRE", "fixes",
+            "            if parent_class.name in preserve:\n                continue  # The class is used from elsewhere, and its magic methods with it\n", "", "R8.4"),
     Variant("delete-unused-ignores-preserve", "FIRE", "fixes",
             "        if node.name not in preserve and node not in preserved_class_funcdefs:\n            funcdefs.append(node)",
             "        if node not in preserved_class_funcdefs:\n            funcdefs.append(node)", "R8.2"),
